@@ -80,9 +80,12 @@ SHAPES = {
     "missing": lambda c, k: f"#/{c}/Missing{esc(k)}",
     "no_slash": lambda c, k: f"#{c}/{esc(k)}",
     "two_hashes": lambda c, k: f"#/{c}/{esc(k)}#",
+    "hash_segment": lambda c, k: f"#/{c}/#{esc(k)}",
+    "hash_last_segment": lambda c, k: f"#/{c}/{esc(k)}/#",
     "empty": lambda c, k: "",
 }
-EMPTY_SEGMENT_SHAPES = {"trailing_slash", "double_slash_mid", "double_slash_lead", "two_trailing", "empty_key", "sub_property_slash"}
+# shapes that end in RecursionError on the unchanged tree (finding C01-pointer-empty-segment; about a second each): rationed
+EMPTY_SEGMENT_SHAPES = {"trailing_slash", "double_slash_mid", "double_slash_lead", "two_trailing", "empty_key", "sub_property_slash", "hash_segment", "hash_last_segment"}
 POSITIONS = ["property", "items", "allOf", "anyOf", "additionalProperties", "alias", "root", "nested"]
 
 
@@ -168,6 +171,8 @@ def classify(doc: Any) -> set[str]:
             continue
         if "" in segs and ref not in ("#/",):
             out.add("empty_segment")
+        if any(x.startswith("#") for x in segs):
+            out.add("hash_segment")
         target = tuple(s.replace("~1", "/").replace("~0", "~") for s in segs)
         if target == at:
             out.add("self_ref")
@@ -183,7 +188,8 @@ def classify(doc: Any) -> set[str]:
 
 
 def without_empty_segments(doc: Any) -> Any:
-    """the document with the empty segments of every local pointer removed (the reference a user most likely meant)"""
+    """the document with the empty segments of every local pointer removed (the reference a user most likely meant) and
+    every reference that has a segment starting with `#` dropped"""
     d = copy.deepcopy(doc)
 
     def go(x):
@@ -191,7 +197,10 @@ def without_empty_segments(doc: Any) -> Any:
             for k, v in list(x.items()):
                 if k == "$ref" and isinstance(v, str) and pointer_segments(v) is not None:
                     segs = [s for s in pointer_segments(v) if s]
-                    x[k] = "#/" + "/".join(segs) if segs else "#"
+                    if any(s.startswith("#") for s in segs):
+                        del x[k]
+                    else:
+                        x[k] = "#/" + "/".join(segs) if segs else "#"
                 else:
                     go(v)
         elif isinstance(x, list):
@@ -284,7 +293,7 @@ def campaign_pointers(ck: Check, run_case, n: int, max_empty: int) -> None:
         c["clean"] = False
         for f in c["features"]:
             camp.hit(f)
-        if hangs >= 2 and "empty_segment" in classify(c["doc"]):
+        if hangs >= 2 and classify(c["doc"]) & {"empty_segment", "hash_segment"}:
             camp.hit("skipped-after-two-hangs")
             continue
         before = len(ck.failures)
